@@ -22,6 +22,8 @@ WaitFail == <<"defer", "bgfail", "bg", "gate", "wait", "probe">>
 NamedWait == <<"bgnamed", "bg", "bg", "gate", "waitnamed", "probe", "gate", "probe">>
 Short   == <<"probe", "gate", "write", "probe", "gate", "probe">>
 DeferFail == <<"defer", "deferfail", "bg", "gate", "defer", "probe">>
+SetupFail == <<"setupfail", "probe">>
+DupBg   == <<"defer", "bgdup", "probe">>
 
 MCBatches == {
   B(<<Sc("p1", Plain), Sc("p2", Probe2)>>, FALSE),
@@ -38,6 +40,8 @@ MCBatches == {
   B(<<Sc("y1", NamedWait), Sc("s1", Skips)>>, FALSE),
   B(<<Sc("y1", NamedWait), Sc("f1", Fails)>>, TRUE),
   B(<<Sc("g1", DeferFail), Sc("d1", Defers)>>, FALSE),
+  B(<<Sc("z1", SetupFail), Sc("p1", Plain)>>, FALSE),
+  B(<<Sc("q1", DupBg), Sc("d1", Defers)>>, FALSE),
   B(<<ScF("u1", Short, "a/foo#1"), ScF("u2", Short, "b/foo"), ScF("u3", Short, "c/foo")>>, FALSE),
   B(<<ScF("u1", Short, "a/foo"), ScF("u2", Short, "b/foo#1"), ScF("u3", Short, "c/foo")>>, FALSE)
 }
